@@ -140,15 +140,15 @@ func urlMenu() []qParam {
 // GenURL lets the explorer pick a raw URL: a representative path and 0..maxParams
 // query parameters (ordered, with repetition) from the menu.
 func GenURL(x *mc.Exec, maxParams int) (raw string, params []qParam, path string) {
-	return GenURLReduced(x, maxParams, maxParams)
+	return GenURLOpt(x, maxParams, maxParams, 0, false)
 }
 
-// urlMenuReduced: the first instance of every parameter name
-func urlMenuReduced() []qParam {
+// urlMenuReduced: the first perName instances of every parameter name
+func urlMenuReduced(perName int) []qParam {
 	seen := map[string]int{}
 	var m []qParam
 	for _, p := range urlMenu() {
-		if seen[p.name] < 1 {
+		if seen[p.name] < perName {
 			m = append(m, p)
 		}
 		seen[p.name]++
@@ -156,16 +156,16 @@ func urlMenuReduced() []qParam {
 	return m
 }
 
-// GenURLReduced: parameters from position fullUpTo on come from the reduced menu.
-func GenURLReduced(x *mc.Exec, maxParams, fullUpTo int) (raw string, params []qParam, path string) {
-	full, reduced := urlMenu(), urlMenuReduced()
+// GenURLOpt: parameters from position fullUpTo on come from the reduced menu (perName instances
+// per parameter name) and, with onlyRepPaths, only on four representative paths.
+func GenURLOpt(x *mc.Exec, maxParams, fullUpTo, perName int, onlyRepPaths bool) (raw string, params []qParam, path string) {
+	full, reduced := urlMenu(), urlMenuReduced(perName)
 	path = urlPaths[x.Choose(len(urlPaths), "path")]
 	for i := 0; i < maxParams; i++ {
 		menu := full
 		if i >= fullUpTo {
 			menu = reduced
-			// parameters beyond the full ones only on four representative paths
-			if path != "/a" && path != "/a/1/rr" && path != "/b" && path != "/cs" {
+			if onlyRepPaths && path != "/a" && path != "/a/1/rr" && path != "/b" && path != "/cs" {
 				break
 			}
 		}
